@@ -98,6 +98,48 @@ func ruleC20(c *Ctx, r *Report) {
 	if nArgs > 0 {
 		seedNames = append(seedNames, fmt.Sprintf("%d read(s) of os.Args", nArgs))
 	}
+	// the parsed flag set holds the key as well: a flag's Value read through the pflag API
+	// (Visit / VisitAll callbacks, Lookup, the command's Flag) or GetString of the flag is a
+	// further source, unless the flag is looked up by a constant name other than the key's
+	nFlagAPI := 0
+	otherConstFlag := func(v ssa.Value) bool {
+		call, ok := peelToCall(v)
+		if !ok {
+			return false
+		}
+		k := calleeKey(&call.Call)
+		if k != "(*github.com/spf13/pflag.FlagSet).Lookup" && k != "(*github.com/spf13/cobra.Command).Flag" {
+			return false
+		}
+		name, isConst := constString(call.Call.Args[len(call.Call.Args)-1])
+		return isConst && name != "atlasPrivateKey"
+	}
+	for _, f := range c.SortedFuncs() {
+		allInstrs(f, func(i ssa.Instruction) {
+			switch x := i.(type) {
+			case *ssa.FieldAddr:
+				n, fv := fieldOf(x)
+				if n != nil && fv != nil && n.Obj().Pkg() != nil && n.Obj().Pkg().Path() == "github.com/spf13/pflag" && n.Obj().Name() == "Flag" && fv.Name() == "Value" {
+					if otherConstFlag(x.X) {
+						return
+					}
+					seeds = append(seeds, x)
+					nFlagAPI++
+				}
+			case *ssa.Call:
+				k := calleeKey(&x.Call)
+				if k == "(*github.com/spf13/pflag.FlagSet).GetString" {
+					if name, isConst := constString(x.Call.Args[len(x.Call.Args)-1]); !isConst || name == "atlasPrivateKey" {
+						seeds = append(seeds, x)
+						nFlagAPI++
+					}
+				}
+			}
+		})
+	}
+	if nFlagAPI > 0 {
+		seedNames = append(seedNames, fmt.Sprintf("%d read(s) of flag values through the pflag API", nFlagAPI))
+	}
 	r.Floor("C20-R1", 6, "uses of the secret: compare, copies, parameter bindings, Password store")
 	if len(seeds) < 2 {
 		r.Bad("C20-R1", "seeds", "-", fmt.Sprintf("expected the flag variable and the environment lookup as sources of the private key, found %v", seedNames))
@@ -166,6 +208,9 @@ func ruleC20(c *Ctx, r *Report) {
 		case *ssa.Call, *ssa.Defer, *ssa.Go:
 			cc := callCommonOf(in)
 			k := calleeKey(cc)
+			if cc.IsInvoke() && cc.Method.Name() == "String" && len(cc.Args) == 0 && namedIs(cc.Value.Type(), "github.com/spf13/pflag", "Value") {
+				continue // reading the text of a flag value: propagation, the result is tracked
+			}
 			if callee := c.staticPkgCallee(cc); callee != nil {
 				okUse, why = true, "passed to a package function (its parameter is then tracked)"
 				construct = fmt.Sprintf("%s:pass-to(%s)", f.Name(), callee.Name())
@@ -299,4 +344,28 @@ func typeNameOf(n *types.Named) string {
 		return "struct"
 	}
 	return n.Obj().Name()
+}
+
+// peelToCall looks through phis with one distinct operand, loads of single-store locals and
+// extracts for the call that produced v.
+func peelToCall(v ssa.Value) (*ssa.Call, bool) {
+	for n := 0; n < 8 && v != nil; n++ {
+		switch x := v.(type) {
+		case *ssa.Call:
+			return x, true
+		case *ssa.Extract:
+			v = x.Tuple
+		case *ssa.UnOp:
+			if x.Op != token.MUL {
+				return nil, false
+			}
+			v = resolveLocal(x)
+			if v == ssa.Value(x) {
+				return nil, false
+			}
+		default:
+			return nil, false
+		}
+	}
+	return nil, false
 }
